@@ -105,6 +105,10 @@ class Conv:
             return [0, [1, self.n(st[1]), [self.e(a) for a in st[2]]]]
         if k == 'lcall':
             return [0, [2, self.lf.index(st[1]), [self.e(a) for a in st[2]]]]
+        if k == 'setsys':
+            return [0, [4, 2, S.SYS_INDEX[st[1]], self.e(st[2])]]
+        if k == 'setspecial':
+            return [0, [4, 0, S.SPECIAL_PROPS.index(st[1]), self.e(st[2])]]
         if k == 'setthe':
             return [0, [0, [4, self.n(st[1])], self.e(st[2])]]
         if k == 'setobjprop':
